@@ -2,6 +2,7 @@ pub mod c01;
 pub mod c02;
 pub mod c04;
 pub mod c06;
+pub mod c07;
 pub mod opt_common;
 pub mod c09;
 pub mod c10;
@@ -21,6 +22,7 @@ pub fn dispatch(ctx: &mut Ctx) -> bool {
         "C02" => c02::run(ctx),
         "C04" => c04::run(ctx),
         "C06" => c06::run(ctx),
+        "C07" => c07::run(ctx),
         "C09" => c09::run(ctx),
         "C10" => c10::run(ctx),
         "C13" => c13::run(ctx),
